@@ -19,6 +19,7 @@ from __future__ import annotations
 
 from typing import Any
 
+from vlib import c10_bulk as cbulk
 from vlib import c10_drive as drv
 from vlib import c10_iter as citer
 from vlib import core
@@ -82,8 +83,11 @@ def run_real(case: dict) -> list[str]:
             r.event(ev)
         r.finish()
         lines = list(r.lines)
-        lines.append(f"arrived {core.hexs(bytes(r.arrived))}")
-        lines.append(f"delivered {core.hexs(bytes(r.delivered))}")
+        lines.append(f"arrived {drv.hx(bytes(r.arrived))}")
+        lines.append(f"delivered {drv.hx(bytes(r.delivered))}")
+        lines.append(r.account())
+        if r.stalled:
+            lines.append("stalled")
         if r.loop.unhandled:
             lines.append("unhandled " + "|".join(r.loop.unhandled))
         _aux[core.case_digest(case)] = {"executed": list(r.executed), "lost": r.lost}
@@ -98,6 +102,8 @@ _ITER_KINDS = ("citer", "srvfull")
 def _run_e2e(case: dict) -> list[str]:
     if case.get("kind") in _ITER_KINDS:
         return citer.run(case)
+    if case.get("kind") == "bulk":
+        return cbulk.run(case)
     if case.get("kind") == "tls":
         r = drv.TLSRun()
     elif case.get("kind") == "sync":
@@ -133,15 +139,26 @@ def model_input(case: dict, real: list[str]):
     if aux is None:
         return None
     g, s = drv.probe_variant()
-    max_size = case.get("max_size") or 262144
+    max_size = case.get("max_size") or drv.real_max_size()
+    if sum(len(ev[1]) for ev in aux["executed"] if ev[0] == "io") > 2 * _MODEL_BYTES:
+        return None     # (real-size buffers: oracle only)
     return f"rp {max_size} {g} {s}", [_ev_line(ev) for ev in aux["executed"]]
 
 
+_MODEL_BYTES = 40000
+
+
+def model_post(case: dict, lines: list[str]) -> list[str]:
+    return [drv.compact_line(ln) for ln in lines]
+
+
 def real_for_diff(case: dict, real: list[str]) -> list[str]:
-    return [ln for ln in real if not ln.startswith("unhandled")]
+    return [ln for ln in real if not ln.startswith(("unhandled", "check ", "stalled"))]
 
 
 def oracle(case: dict, real: list[str]) -> str | None:
+    if case.get("kind") == "bulk":
+        return cbulk.oracle(case, real)
     for ln in real:
         if ln.startswith("harness-exc") or ln.startswith("unhandled"):
             return ln
@@ -162,6 +179,15 @@ def oracle(case: dict, real: list[str]) -> str | None:
         if have != exp:
             return f"packets received {have} != packets written {exp}"
         return None
+    # the library's own bookkeeping must never make the transport abort the connection or stop reading for good
+    account = next((ln for ln in real if ln.startswith("check ")), "check ?")
+    if "io-full" in real:
+        return ("get_buffer() returned an EMPTY buffer while the transport was reading (internal buffer full, reading not paused): "
+                "asyncio raises RuntimeError('get_buffer() returned an empty buffer') and aborts the connection, the buffered "
+                f"bytes and the rest of the stream are lost ({account[6:]})")
+    if "stalled" in real:
+        return ("the transport was left paused although the protocol holds no byte: nothing will ever resume it, the rest of "
+                "the stream cannot be received")
     # a receive may fail with the connection's OSError or be cancelled, nothing else
     for ln in real:
         if ln.startswith("err ") and not ln.split()[1].isdigit():
@@ -169,7 +195,7 @@ def oracle(case: dict, real: list[str]) -> str | None:
     # a receive that asked for bytes and returned none signals end-of-stream: only legitimate after eof / loss
     aux = _aux.get(core.case_digest(case))
     evs_x = aux["executed"] if aux else case["events"]
-    outs = [ln for ln in real if not ln.startswith(("held ", "arrived ", "delivered "))]
+    outs = [ln for ln in real if not ln.startswith(("held ", "arrived ", "delivered ", "check ", "stalled"))]
     ended, size = False, 0
     for ev, o in zip(evs_x, outs):
         if ev[0] in ("eof", "lost"):
@@ -184,11 +210,11 @@ def oracle(case: dict, real: list[str]) -> str | None:
     delivered = "" if delivered == "-" else delivered
     lost = any(ev[0] == "lost" for ev in case["events"])
     if lost:
-        if not arrived.startswith(delivered):
-            return f"delivered {delivered} is not a prefix of arrived {arrived}"
+        if not account.startswith(("check eq", "check prefix")):
+            return f"delivered {delivered} is not a prefix of arrived {arrived} ({account[6:]})"
         return None
-    if delivered != arrived:
-        return f"delivered {delivered or '-'} != arrived {arrived or '-'} (bytes lost, duplicated or reordered)"
+    if account != "check eq":
+        return f"delivered {delivered or '-'} != arrived {arrived or '-'} (bytes lost, duplicated or reordered; {account[6:]})"
     return None
 
 
@@ -207,6 +233,8 @@ def _windows(events: list) -> list[list]:
 def nontrivial(case: dict, real: list[str]) -> str | None:
     if case.get("kind") in _ITER_KINDS:
         return citer.nontrivial(case, real)
+    if case.get("kind") == "bulk":
+        return cbulk.nontrivial(case, real)
     if case.get("layer", "proto") == "e2e":
         if any(ln in ("cancelled", "timeout") for ln in real):
             return f"e2e/{case.get('kind', 'endpoint')}/{case['path']}/" + ("timeout" if "timeout" in real else "cancel")
@@ -232,10 +260,10 @@ def nontrivial(case: dict, real: list[str]) -> str | None:
             k = i
             while k < len(evs) and evs[k][0] != "turn":
                 k += 1
-            before = any(e[0] == "io" for e in evs[j:i])
-            after = any(e[0] == "io" for e in evs[i + 1:k])
+            before = any(e[0] in ("io", "iogen") for e in evs[j:i])
+            after = any(e[0] in ("io", "iogen") for e in evs[i + 1:k])
             pos = "first-step" if started_turns == 0 else ("io-then-cancel" if before else "cancel-then-io" if after else "cancel-alone")
-            key = f"proto/{kind}/{pos}"
+            key = f"proto/{kind}/{pos}" + ("/fill" if case.get("fill") else "")
             if before or after:
                 break
     return key
@@ -244,6 +272,9 @@ def nontrivial(case: dict, real: list[str]) -> str | None:
 def shrink(case: dict):
     if case.get("kind") in _ITER_KINDS:
         yield from citer.shrink(case)
+        return
+    if case.get("kind") == "bulk":
+        yield from cbulk.shrink(case)
         return
     if case.get("layer", "proto") == "e2e":
         ops = case["ops"]
@@ -256,7 +287,7 @@ def shrink(case: dict):
     for i, ev in enumerate(evs):
         if ev[0] == "io" and len(ev[1]) > 2:
             yield {**case, "events": evs[:i] + [["io", ev[1][:2]]] + evs[i + 1:]}
-        if ev[0] in ("recv", "into") and ev[1] > 4:
+        if ev[0] in ("recv", "into") and ev[1] > 4 and not case.get("fill"):
             yield {**case, "events": evs[:i] + [[ev[0], 4]] + evs[i + 1:]}
 
 
@@ -267,6 +298,8 @@ def known_key(case: dict, real: list[str], why: str) -> str:
     F4b = plaintext already read from the SSL object is dropped when recv is cancelled while flushing pending output."""
     if case.get("kind") in _ITER_KINDS:
         return f"layer=e2e,kind={case['kind']},source={case.get('source', case.get('server'))},entry={case.get('entry')}"
+    if case.get("kind") == "bulk":
+        return f"layer=e2e,kind=bulk,via={case['via']},path={case.get('path')}"
     if case.get("layer", "proto") == "e2e":
         kind = case.get("kind", "endpoint")
         disturbed = any(op[0] in ("cancel", "tick") for op in case["ops"]) or kind == "tls"
@@ -276,6 +309,8 @@ def known_key(case: dict, real: list[str], why: str) -> str:
             return "defect=F4-recv_into-cancel"
         return f"layer=e2e,kind={kind},path={case['path']}"
     kinds = {ev[0] for ev in case["events"]}
+    if "io-full" in real or "stalled" in real:
+        return "layer=proto,flow-control," + ("real-size" if not case.get("max_size") else "small")
     if "into" in kinds and "cancel" in kinds and "lost" not in kinds and "data" not in why:
         if "lost, duplicated or reordered" in why:
             return "defect=F4-recv_into-cancel"
@@ -331,6 +366,11 @@ def corpus() -> list[dict]:
     # round 5: the receive entry points above AsyncStreamEndpoint.recv_packet() (client iterators, UDP client, request receivers,
     # the whole server chain), cancelled at every suspension point (vlib/c10_iter.py)
     cs += citer.corpus()
+    # round 6: buffers of the order of the protocol's own buffer / water marks, filled by one read, cancel in the same iteration,
+    # more data (vlib/c10_bulk.py): protocol level (max_size 4 … 8192 with the model, the real 256 KiB oracle only) and over the
+    # real asyncio selector transport (transport, endpoint, TLS)
+    cs += cbulk.corpus_fill()
+    cs += cbulk.corpus_bulk()
     return cs
 
 
@@ -466,6 +506,10 @@ def generate(rng, tier: str, boost: int):
         yield _gen_tls(rng)
     for i in range((450 if tier == "quick" else 12000) * boost):
         yield citer.gen_srvfull(rng) if i % 7 == 0 else citer.gen_citer(rng)
+    for i in range((600 if tier == "quick" else 12000) * boost):
+        yield cbulk.gen_fill(rng, real=(i % 20 == 0))
+    for _ in range((24 if tier == "quick" else 300) * boost):
+        yield cbulk.gen_bulk(rng)
 
 
 def extra_coverage(stats) -> dict:
